@@ -89,6 +89,7 @@ DEFAULT_PROFILE = dict(
     reindent_committed_ai=True,   # whitespace-only edits of AI lines already contained in HEAD (finding D17)
     reset_over_removed_lines=True,   # reset --soft/--mixed past commits (or with pending edits) that delete / replace lines (finding D58 when off)
     restore_with_initial_pending=True,   # `git restore` of a file that carries INITIAL-only pending claims (finding D55 when off)
+    pull_dup_commit_ai=True,      # pull --rebase drops a local commit with agent lines that upstream has as an identical patch (finding D65 when off)
     reset_path_dash_name=True,    # `git reset -- <name starting with a dash>` (finding D56 when off)
 )
 
